@@ -720,7 +720,8 @@ def traced_scripts(ctx, families, n):
         while rnd.random() < p:
             out.append(("ignored", rnd.choice(IGNORED)))
         return out
-    endings = ["eof", "quit", ("partial", "isrea"), ("partial", "   "), ("partial", "go"), "eof", "quit"]
+    endings = ["eof", "quit", ("partial", "isrea"), ("partial", "   "), ("partial", "go"), "eof", "quit",
+               ("partial", "\n"), ("partial", "  \t \n"), ("partial", "\r\n"), ("partial", "\t"), ("partial", "isready\n\n")]
     if "cont" in families:
         # a GUI playing a game through the engine: the position command grows by the engine's own answers
         for stem in CONT_STEMS:
@@ -768,23 +769,26 @@ def run_traced(ctx, families, n):
 
     def fresh_state(cmd):
         if cmd not in fresh_cache:
-            tr, _, prob = S.traced_session([cmd], "eof")
+            tr, _, prob, _b = S.traced_session([cmd], "eof")
             st = [l for l in (tr or []) if l.startswith("verifstate ")]
             fresh_cache[cmd] = st[1] if len(st) >= 2 else None
         return fresh_cache[cmd]
 
     def one(sc):
         name, items, ending = sc
-        tr, entries, prob = S.traced_session([it for _, it in items], ending)
-        return sc, tr, entries, prob
+        tr, entries, prob, sent = S.traced_session([it for _, it in items], ending)
+        return sc, tr, entries, prob, sent
     results = S.run_parallel(one, scripts, workers=8)
     ops = []
-    for sc, tr, entries, prob in results:
+    for sc, tr, entries, prob, sent in results:
         if entries:
-            ops.append("sess " + S.esc_line("\n".join(entries)))
+            # the model gets the BYTES the process read (its own read_from_gui splits them into lines)
+            # and the engine's answers in order
+            answers = [e.split(S.SEP)[1] for e in entries if S.SEP in e]
+            ops.append("sessb " + ",".join(answers) + "|" + S.esc_line(sent))
     model = C.run_model_only(ops) if ops else []
     mi = 0
-    for sc, tr, entries, prob in results:
+    for sc, tr, entries, prob, sent in results:
         name, items, ending = sc
         ctx.count("traced_sessions")
         if prob or not entries:
